@@ -37,7 +37,7 @@ fn main() {
 			} else {
 				let from = args.u64("from", 0) as usize;
 				let to = args.u64("to", 0) as usize;
-				worker::run(&space, &bounds, from, to, args.req("out"), args.req("bad"), args.get("single").is_some())
+				worker::run(&space, &bounds, from, to, args.req("out"), args.req("bad"), args.get("single").is_some(), args.get("skip").unwrap_or(""))
 			}
 		}
 		Some("run") => parent::run(&args),
